@@ -12,7 +12,10 @@ import (
 )
 
 // ValidOps is the operation alphabet of C09 / C18 (ValidReplayer).
-var ValidOps = []string{"Put{a}", "Put{b}", "Put(no topics)", "GC()", "Advance(1 tick)", "Advance(TTL)", "Put{a}x5", "Put{a}x9", "Replay(oldest unexpired ID, {a,b})"}
+var ValidOps = []string{"Put{a}", "Put{b}", "Put(no topics)", "GC()", "Advance(1 tick)", "Advance(TTL)", "Put{a}x5", "Put{a}x9", "Replay(oldest unexpired ID, {a,b})", "Put{a}(ID wrong for the mode)"}
+
+// the default alphabet: everything but the last operation, which has configurations of its own
+var defaultValidOps = []int{0, 1, 2, 3, 4, 5, 6, 7, 8}
 
 type ValidCfg struct {
 	TTL  int // in ticks; one tick is one second
@@ -33,6 +36,8 @@ type ValidCfg struct {
 	// PastClock: the injected clock runs in 2001, far behind the machine's own clock (nothing in the replayer may
 	// depend on the wall clock once Now is replaced).
 	PastClock bool
+	// RejectedPuts marks the configurations whose alphabet contains the Put that is rejected because of its ID.
+	RejectedPuts bool
 	// HugeTTL marks the configurations whose TTL is centuries (searched to a small depth).
 	HugeTTL bool
 }
@@ -167,6 +172,34 @@ func VisitValid(c ValidCfg, hist []uint8, which string, probes *int64) (uint64, 
 			adv++
 		case 8:
 			v = replayOldest()
+		case 9:
+			// rejected because of its ID (set in automatic mode, missing in manual mode): nothing is stored, and the
+			// call must not count as a collection either
+			in := mkMsg(attempt, c.Auto)
+			attempt++
+			if _, perr := r.Put(in, []string{"a"}); perr == nil && last && which != "C18" {
+				v = viol("put-invalid-accepted", "%s: a Put whose ID is wrong for the mode was accepted", desc())
+			}
+			// Whether a rejected Put runs a due collection is the implementation's business - but it may not use
+			// up the interval without collecting. If something expired is still held, the interval has not
+			// restarted (the next Put must collect); otherwise it may have.
+			{
+				// (the call may well have collected - the implementation's own notion of "last collection" can be
+				// earlier than t0 - so unless there is evidence that it did not, t0 moves)
+				held := map[string]bool{}
+				for _, m := range deep.Messages(r) {
+					held[m.ID.String()] = true
+				}
+				stale := false
+				for _, e := range all {
+					if e.exp <= now && held[e.id] {
+						stale = true
+					}
+				}
+				if !stale || !t0set {
+					t0, t0set = now, true
+				}
+			}
 		case 6, 7:
 			macros++
 			n := 5
